@@ -113,7 +113,8 @@ def _unknown(out, open_sigs):
 
 
 def _worker_generate(args):
-    pid, tier, seed, widx, n = args
+    pid, tier, seed, widx, n = args[:5]
+    survey = len(args) > 5 and args[5]
     import hypothesis
     from hypothesis import HealthCheck, Phase, given, settings
     mod = load_prop(pid)
@@ -132,6 +133,10 @@ def _worker_generate(args):
         if not state["failed"]:
             acc.record(case, out, open_sigs)
         bad = _unknown(out, open_sigs)
+        if bad and survey:
+            for d in bad:
+                acc.failures.append((jsonable(case), [d.to_json()]))
+            return
         if bad:
             state["failed"] = True
             state["last"] = (jsonable(case), [d.to_json() for d in bad])
@@ -322,4 +327,36 @@ def run_check(pid, tier, seed):
     if total.cases and total.inconclusive * 2 > total.cases:
         print("inconclusive: more than half of the cases hit the wall-clock watchdog")
         return 2
+    return 0
+
+
+def survey(pid, tier, seed, n):
+    """Triage helper (not a registered check): run n generated cases without stopping at failures and
+    print a histogram of discrepancy signatures with a few examples each."""
+    build.build()
+    mod = load_prop(pid)
+    ctx = multiprocessing.get_context("fork")
+    per = max(1, n // WORKERS)
+    with ctx.Pool(WORKERS) as pool:
+        res = pool.map(_worker_generate, [(pid, tier, seed, w, per, True) for w in range(WORKERS)])
+    hist = collections.Counter()
+    ex = collections.defaultdict(list)
+    cases = 0
+    classes = collections.Counter()
+    for r in res:
+        cases += r["cases"]
+        classes.update(r["classes"])
+        if r["error"]:
+            print("worker error:", r["error"][-2000:])
+        for case, discs in r["failures"]:
+            sig = discs[0]["sig"]
+            hist[sig] += 1
+            if len(ex[sig]) < 4:
+                ex[sig].append((case, discs[0]))
+    print("survey %s: %d cases" % (pid, cases))
+    print("classes:", dict(sorted(classes.items())))
+    for sig, c in hist.most_common():
+        print("== %s: %d" % (sig, c))
+        for case, d in ex[sig]:
+            print("    ", json.dumps(d["detail"], ensure_ascii=False)[:700])
     return 0
